@@ -394,8 +394,13 @@ fn scenario(cx: &mut Ctx, w: u8, ms: &[Member], variants: &[Sched], expect_ok: b
         cx.rep.violation("concat:valid-members-rejected", &format!("valid appendable/catable members with non-growing windows were not concatenated: {}", reference.fin), case(""));
     }
     // ---- C12 (+C16 under other slicings)
+    let mut any_panic = reference.fin == "panic";
     for v in variants {
+        // a panic inside an `extern "C"` function aborts the process: the C-ABI variant only runs
+        // when the same scenario did not panic through the Rust API
+        if v.ffi && any_panic { cx.rep.count("sched.c_abi_skipped_after_panic"); continue; }
         let r = if v.ffi { run_ffi(w, &raw, v) } else { run(w, &raw, v) };
+        if r.fin == "panic" { any_panic = true; }
         cx.rep.evaluations += 1;
         if !v.ffi { emit(cx, &r); }
         if r.fin == "panic" || r.fin == "livelock" || r.fin == "cursor" {
